@@ -1,5 +1,5 @@
 #!/bin/bash
-# usage: tools/verify_seed.sh <Cxx> [check ids to run, default: the property itself]
+# usage: [SEED_WT=<worktree>] tools/verify_seed.sh <name> [check ids to run, default: the property itself]
 # Confirms a sub-agent's seeded change in its scratch worktree /tmp/seed_<Cxx>:
 #   - the repository's own tests pass with the change (default features and --all-features)
 #   - the demonstration fails with the change and passes without it
@@ -8,7 +8,7 @@
 set -u
 ID="$1"; shift
 CHECKS="${*:-$ID}"
-WT="/tmp/seed_$ID"
+WT="${SEED_WT:-/tmp/seed_$ID}"
 OUT="/verif/seeded/$ID"
 [ -f "$WT/SEED/patch.diff" ] || { echo "no patch in $WT/SEED"; exit 2; }
 mkdir -p "$OUT"
